@@ -540,6 +540,12 @@ pub fn c11(ctx: &GCtx) -> i32 {
                 r.class_if(s.big_payload, "generated: payload >= 4096");
                 r.class(&format!("generated: shape {}", shape_kind(&mt.shape)));
             }
+            // unchecked code can take the process down without unwinding: the orchestrator
+            // attributes such a death to the journaled case
+            if ctx.skip_case() {
+                return Ok(());
+            }
+            crate::journal(ctx, "C11", &rec, &json!({"sub": "generated-unchecked", "key": "process-died", "case": c}));
             match c11_case(doc, mt, entry, c) {
                 Err(fl) if seen.contains(&fl.key) || ctx.findings.is_open("C11", &fl.key) => Ok(()),
                 o => o,
